@@ -9,6 +9,9 @@
 //                                  diagnostic, the element its XPath selects in a DOM of the same input, and the
 //                                  oracle's verdict about line / columns
 #include "common.hpp"
+#include <fstream>
+#include <cstdio>
+#include <unistd.h>
 #include "libparser.h"
 
 #include <libxml/parser.h>
@@ -227,7 +230,8 @@ static std::string inText(const std::string& text, uint32_t line, uint32_t col)
     return "";
 }
 
-static void opXml(bool newxta, const std::string& xml, bool with_tree)
+// `viaFile`: the same bytes through parse_XML_file (the file readers ask libxml2 to drop blank text nodes, the buffer reader does not)
+static void opXml(bool newxta, const std::string& xml, bool with_tree, bool viaFile = false)
 {
     std::ostringstream os;
     std::string exc;
@@ -235,7 +239,22 @@ static void opXml(bool newxta, const std::string& xml, bool with_tree)
     Document doc;
     uint32_t p0 = tracker.position;
     try {
-        rc = parse_XML_buffer(xml.c_str(), &doc, newxta);
+        if (viaFile) {
+            const char* dir = getenv("VERIF_C06_DIR");
+            std::string path = std::string(dir ? dir : ".") + "/c06-" + std::to_string((long)getpid()) + ".xml";
+            {
+                std::ofstream f(path, std::ios::binary);
+                f << xml;
+            }
+            try {
+                rc = parse_XML_file(path.c_str(), &doc, newxta);
+            } catch (...) {
+                std::remove(path.c_str());
+                throw;
+            }
+            std::remove(path.c_str());
+        } else
+            rc = parse_XML_buffer(xml.c_str(), &doc, newxta);
     } catch (std::exception& e) {
         exc = excName(e);
     }
@@ -310,11 +329,11 @@ int main(int argc, char** argv)
             std::string hex;
             is >> nx >> part >> hex;
             opLex(nx != 0, part, unhex(hex));
-        } else if (op == "X" || op == "XT") {
+        } else if (op == "X" || op == "XT" || op == "XFT") {
             int nx;
             std::string hex;
             is >> nx >> hex;
-            opXml(nx != 0, unhex(hex), op == "XT");
+            opXml(nx != 0, unhex(hex), op != "X", op == "XFT");
         } else {
             std::cout << "{\"bad-op\":true}\n";
         }
